@@ -1122,15 +1122,40 @@ func (e *l2env) scriptStall(variant int) Outcome {
 // variant 1: a client that keeps pinging is kept, and ended once it falls silent
 // variant 2: a client that sends only pose updates while in no session (K5)
 func (e *l2env) scriptIdle(variant int) Outcome {
-	names := []string{"idle_silent", "idle_pinging", "idle_pose_only_unjoined", "idle_silent_joined", "idle_pose_only_joined"}
+	names := []string{"idle_silent", "idle_pinging", "idle_pose_only_unjoined", "idle_silent_joined", "idle_pose_only_joined", "idle_pose_only_joined_after_a_neighbours_refused_rejoin"}
 	out := Outcome{Script: names[variant], Param: variant}
 	// the sync clock (sync=100ms here) ticks while the script runs: token Y
 	rep24 := func(t string) string { return strings.TrimSpace(strings.Repeat(t+" T*37 Y ", 24)) }
 	silence := "T*100 Y T*100 Y T*100"
-	out.Model = []string{silence, rep24("V") + " " + silence, rep24("D") + " " + silence, "J V V " + silence, "J V V " + rep24("D") + " " + silence}[variant]
+	out.Model = []string{silence, rep24("V") + " " + silence, rep24("D") + " " + silence, "J V V " + silence, "J V V " + rep24("D") + " " + silence,
+		"J V V " + rep24("D") + " " + silence}[variant]
 	idle := 800 * time.Millisecond
-	joined := variant == 3 || variant == 4
+	joined := variant >= 3
+	// variant 5: a neighbour joins S1, is refused a move to a session that does not exist (it has left S1 by then and its
+	// frame-handler id is free again), the offender joins (and is handed that id), the neighbour disconnects. The
+	// offender's pose updates must still be consumed: it keeps sending and must not be ended as idle.
+	var neighbour *client
+	nBefore, nShell := handlerGoroutines(), 0
+	if variant == 5 {
+		if n, err := e.s.dial("", 0); err == nil {
+			n.startReading()
+			if _, _, err := n.join(e.s1); err == nil {
+				n.join("tedxfffe") // refused: no such session
+				neighbour = n
+				nShell = handlerGoroutines() - nBefore
+			}
+		}
+	}
 	o, err := e.begin(joined, "idle="+idle.String()+"&sync=100ms", 0)
+	if neighbour != nil {
+		neighbour.tcp.Close()
+		time.Sleep(150 * time.Millisecond)
+		if o != nil {
+			// the baselines were taken while the neighbour was connected
+			o.g0--
+			o.n0 -= nShell
+		}
+	}
 	if err != nil {
 		out.Note = "setup: " + err.Error()
 		out.Class = "setup-failed"
@@ -1144,7 +1169,7 @@ func (e *l2env) scriptIdle(variant int) Outcome {
 	switch variant {
 	case 0, 3:
 		// nothing
-	case 1, 2, 4:
+	case 1, 2, 4, 5:
 		out.WantKept = variant != 2
 		// keep sending for 3 idle timeouts
 		for time.Since(t0) < 3*idle {
@@ -1154,7 +1179,7 @@ func (e *l2env) scriptIdle(variant int) Outcome {
 				err = o.c.send(&hagallpb.Request{Type: hagallpb.MsgType_MSG_TYPE_PING_REQUEST, Timestamp: now(), RequestId: nextRid()})
 			case 2:
 				err = o.c.send(&hagallpb.EntityUpdatePose{Type: hagallpb.MsgType_MSG_TYPE_ENTITY_UPDATE_POSE, Timestamp: now(), EntityId: 1, Pose: pose(1)})
-			case 4:
+			case 4, 5:
 				err = o.c.send(&hagallpb.EntityUpdatePose{Type: hagallpb.MsgType_MSG_TYPE_ENTITY_UPDATE_POSE, Timestamp: now(), EntityId: o.ents[0], Pose: pose(1)})
 			}
 			ended := false
@@ -1257,7 +1282,7 @@ func planFor(tier string, burstReps int) []scriptSpec {
 	for k := 0; k <= 6; k++ {
 		p = append(p, scriptSpec{fmt.Sprintf("reset:%d", k), 2})
 	}
-	for v := 0; v < 5; v++ {
+	for v := 0; v < 6; v++ {
 		p = append(p, scriptSpec{fmt.Sprintf("idle:%d", v), 1})
 	}
 	for k := 0; k < 6; k++ {
